@@ -264,3 +264,27 @@ PROPS["C04"] = dict(
     assumptions=["the round trip itself is checked on the implementation (law cases), not yet proved "
                  "about the model's parser"],
 )
+
+
+def classify_c12(case, model, why):
+    if "kind=law" in case[2]:
+        return dict(kind="failing-input", why="the literal does not denote the characters written: " + case[1][:300])
+    if case[1].startswith("(crash"):
+        return dict(kind="failing-input", why="compiling this literal panicked")
+    return dict(kind="failing-input", why="the real literal decoding and the model's differ: " + why)
+
+
+PROPS["C12"] = dict(
+    streams=["C12"],
+    compare=cmp_laws,
+    classify=classify_c12,
+    gate_imports="From Coq Require Import String Ascii.\nFrom Cel.Model Require Import Literals.\nFrom Cel.Proofs Require Import LiteralProofs.\nOpen Scope N_scope.",
+    exhaustive=True,
+    exhaustive_note="every single-character escape, all 256 \\x, \\X and octal escapes, a 1/16 sample plus "
+                    "all boundaries of the 65536 \\u escapes (thorough: all of them), \\U plane boundaries and "
+                    "a random sample, invalid escapes - each in the 8 non-raw string and bytes styles, alone "
+                    "and between other characters; plus random strings and byte sequences rendered in all "
+                    "16 styles with random per-character spelling choices, and quote/newline edge cases",
+    rule="a case is a literal text (with the string it must denote for the law cases); every case is "
+         "non-trivial (contains an escape, a quote or a non-ASCII/control character); distinct by text",
+)
